@@ -212,17 +212,27 @@ loop:
 			}
 			spec.Q = 1.0
 			s = skipSpace(s)
-			if strings.HasPrefix(s, ";") {
-				s = skipSpace(s[1:])
-				for !strings.HasPrefix(s, "q=") && s != "" && !strings.HasPrefix(s, ",") {
-					s = skipSpace(s[1:])
+			// media range parameters, then the weight and its extension parameters
+			for strings.HasPrefix(s, ";") {
+				var name string
+				name, s = expectToken(skipSpace(s[1:]))
+				if name == "" {
+					break
 				}
-				if strings.HasPrefix(s, "q=") {
-					spec.Q, s = expectQuality(s[2:])
+				if !strings.HasPrefix(s, "=") {
+					// an extension parameter without a value
+					s = skipSpace(s)
+					continue
+				}
+				if name == "q" || name == "Q" {
+					spec.Q, s = expectQuality(s[1:])
 					if spec.Q < 0.0 {
 						continue loop
 					}
+				} else {
+					_, s = expectTokenOrQuoted(s[1:])
 				}
+				s = skipSpace(s)
 			}
 
 			specs = append(specs, spec)
